@@ -21,37 +21,36 @@ def unescape_string(value: str, token: Token, quote: str = '"') -> str:
     return "".join(unescaped)
 
 
-def _decode_escape_sequence(  # noqa: PLR0911
+def _decode_escape_sequence(
     value: str, index: int, token: Token, quote: str
 ) -> tuple[str, int]:
+    """Decode the escape sequence at `index`, just past the backslash.
+
+    Returns the decoded character and the index of the last character of the
+    escape sequence.
+    """
     try:
         ch = value[index]
     except IndexError as err:
         raise PestGrammarSyntaxError("incomplete escape sequence", token=token) from err
 
-    # TODO: match these to Rust?
-    if ch == quote:
-        return quote, index
-    if ch == "\\":
-        return "\\", index
-    if ch == "/":
-        return "/", index
-    if ch == "b":
-        return "\x08", index
-    if ch == "f":
-        return "\x0c", index
+    if ch in ('"', "'", "\\"):
+        return ch, index
     if ch == "n":
         return "\n", index
     if ch == "r":
         return "\r", index
     if ch == "t":
         return "\t", index
+    if ch == "0":
+        return "\0", index
     if ch == "x":
-        # TODO: handle incomplete \x escape sequence
-        return chr(int(value[index + 1 : index + 3], 16)), index + 3
+        digits = value[index + 1 : index + 3]
+        if len(digits) != 2:  # noqa: PLR2004
+            raise PestGrammarSyntaxError("expected \\xHH", token=token)
+        return chr(_parse_hex_digits(digits, token)), index + 2
     if ch == "u":
-        codepoint, index = _decode_hex_char(value, index, token)
-        return chr(codepoint), index
+        return _decode_hex_char(value, index, token)
 
     raise PestGrammarSyntaxError(
         f"unknown escape sequence at index {token.start + index - 1}",
@@ -59,32 +58,31 @@ def _decode_escape_sequence(  # noqa: PLR0911
     )
 
 
-def _decode_hex_char(value: str, index: int, token: Token) -> tuple[int, int]:
-    # TODO: use a regular expression?
+def _decode_hex_char(value: str, index: int, token: Token) -> tuple[str, int]:
     index += 1  # move past 'u'
 
-    if value[index] != "{":
-        raise PestGrammarSyntaxError(
-            f"expected an opening brace, found {value[index]}",
-            token=token,
-        )
+    if value[index : index + 1] != "{":
+        raise PestGrammarSyntaxError("expected an opening brace", token=token)
 
     index += 1  # move past '{'
-    closing_brace_index = value.find("}", index)
 
+    closing_brace_index = value.find("}", index)
     if closing_brace_index == -1:
         raise PestGrammarSyntaxError("unclosed Unicode escape sequence", token=token)
 
     hex_digit_length = closing_brace_index - index
-    if hex_digit_length not in (2, 4, 6):
+    if not 2 <= hex_digit_length <= 6:  # noqa: PLR2004
         raise PestGrammarSyntaxError(
-            "expected \\u{00}, \\u{0000} or \\u{000000}", token=token
+            "expected two to six hexadecimal digits in \\u{...}", token=token
         )
 
-    codepoint = _parse_hex_digits(value[index : index + hex_digit_length], token)
-    index += hex_digit_length
-    index += 1  # move past '}'
-    return codepoint, index
+    codepoint = _parse_hex_digits(value[index:closing_brace_index], token)
+    if codepoint > 0x10FFFF:  # noqa: PLR2004
+        raise PestGrammarSyntaxError(
+            "\\u{...} is not a Unicode code point", token=token
+        )
+
+    return chr(codepoint), closing_brace_index
 
 
 def _parse_hex_digits(digits: str, token: Token) -> int:
@@ -99,7 +97,7 @@ def _parse_hex_digits(digits: str, token: Token) -> int:
             codepoint |= digit - 97 + 10
         else:
             raise PestGrammarSyntaxError(
-                "invalid \\u{XXXX} escape sequence",
+                "invalid hexadecimal escape sequence",
                 token=token,
             )
     return codepoint
